@@ -283,6 +283,13 @@ mod python;
 #[cfg(target_family = "wasm")]
 mod wasm;
 
+#[cfg(grex_verif)]
+pub mod verif;
+
+#[cfg(all(grex_verif, grex_verif_wasm, not(target_family = "wasm")))]
+#[path = "wasm.rs"]
+pub mod wasm_native;
+
 pub use builder::RegExpBuilder;
 
 #[cfg(target_family = "wasm")]
